@@ -104,7 +104,15 @@ func wlTreeCaseFor(tier string, seed uint64, i int) (WLCase, explore.Limits) {
 		if hasEmpty(kept) {
 			continue
 		}
-		w.UserEnt = 0 // the harness's own separator functions are deterministic: they must declare 0 bits
+		w.UserEnt = 0                  // the harness's own separator functions are deterministic: they must declare 0 bits
+		if i%6 == 3 && w.Length >= 2 { // a failing separator: requirement + a single attempt
+			w.SepKind = "constructed"
+			w.sepRec = spg.CharRecipe{Length: 1, AllowChars: []string{"xy", "+=", "12"}[r.Intn(3)], RequireSets: nil}
+			w.sepRec.RequireSets = []string{oracle.Chars(w.sepRec.AllowChars)[0]}
+			d := descChar(w.sepRec)
+			w.SepRec = &d
+			w.SepTrials = 1
+		}
 		if wlLeafEstimate(w, len(kept)) <= float64(budget) {
 			return w, lim
 		}
